@@ -737,7 +737,7 @@ func TestCorpus(t *testing.T) {
 			t.Fatalf("bad witness %s: %v", fd.ID, err)
 		}
 		// Witnesses of non-termination are replayed with a short budget.
-		if fd.Class == "NPMAliasCycleNonTermination" {
+		if strings.HasSuffix(fd.Class, "NonTermination") {
 			group, name, _ := strings.Cut(c.Target, "/")
 			for _, tg := range targets[group] {
 				if tg.name == name {
